@@ -114,14 +114,13 @@ structure ValidFacts (pkg : Pkg) : Prop where
   noLoc : ∀ f ∈ pkg, noLocals f.decls = true
   cval : ∀ f ∈ pkg, constsValid f.decls = true
   go : ∀ f ∈ pkg, endsGo f.name = true
-  noUniv : noUniverse (allTSpecs pkg) = true
   ctypes : constTypesOK pkg = true
   nonEmpty : ∀ ft ∈ declared pkg, ft.2.name ≠ ""
 
 theorem validFacts {pkg : Pkg} (h : validPkg pkg = true) : ValidFacts pkg := by
   simp only [validPkg, Bool.and_eq_true, decide_eq_true_eq, List.all_eq_true] at h
-  obtain ⟨⟨⟨⟨⟨⟨h1, h2⟩, h3⟩, h4⟩, h5⟩, h6⟩, h7⟩ := h
-  refine ⟨h1, h2, h3, fun f hf => (h4 f hf).1.1, fun f hf => (h4 f hf).1.2, fun f hf => (h4 f hf).2, h5, h6, ?_⟩
+  obtain ⟨⟨⟨⟨⟨h1, h2⟩, h3⟩, h4⟩, h6⟩, h7⟩ := h
+  refine ⟨h1, h2, h3, fun f hf => (h4 f hf).1.1, fun f hf => (h4 f hf).1.2, fun f hf => (h4 f hf).2, h6, ?_⟩
   intro ft hft he
   simp only [Bool.not_eq_true', List.contains_eq_mem, List.mem_map, decide_eq_false_iff_not, not_exists, not_and] at h7
   exact h7 ft hft he
@@ -280,29 +279,18 @@ theorem makeData_map_none {pkg : Pkg} (v : ValidFacts pkg) {n : String} (h : fin
 
 def restListed (t : TSpec) : Bool := match t.shape with | .iface es => hasRestClient es | _ => false
 
-theorem ifaceTest_noUniv (es : List Embed) (h : es.contains .universe = false) :
-    ifaceTest es = some (hasRestClient es) := by
+theorem ifaceTest_eq (es : List Embed) : ifaceTest es = hasRestClient es := by
   induction es with
   | nil => rfl
-  | cons e r ih =>
-    cases e <;> simp_all [ifaceTest, hasRestClient]
-
-theorem noUniv_of_mem {pkg : Pkg} (v : ValidFacts pkg) {f : String} {t : TSpec} (h : (f, t) ∈ declared pkg)
-    {es : List Embed} (hs : t.shape = .iface es) : es.contains .universe = false := by
-  have := v.noUniv
-  rw [allTSpecs_eq pkg v.noLoc] at this
-  simp only [noUniverse, List.all_eq_true, List.mem_map] at this
-  have := this t ⟨(f, t), h, rfl⟩
-  simpa [hs] using this
+  | cons e r ih => cases e <;> simp_all [ifaceTest, hasRestClient]
 
 theorem makeData_rest_decl {pkg : Pkg} (v : ValidFacts pkg) {f : String} {t : TSpec} (h : (f, t) ∈ declared pkg) (sp : Bool) :
     makeData .rest pkg sp t.name = if restListed t then .ok true else .error .fatal := by
   simp only [makeData, namedSpecs_of_mem v h]
   cases hs : t.shape with
   | iface es =>
-    have hi := ifaceTest_noUniv es (noUniv_of_mem v h hs)
     cases hrc : hasRestClient es <;>
-      simp [restHas, restNodes, restListed, hs, hi, hrc, bind, Except.bind, pure, Except.pure, throw, throwThe, MonadExceptOf.throw]
+      simp [restHas, restListed, hs, ifaceTest_eq, hrc, pure, Except.pure, throw, throwThe, MonadExceptOf.throw]
   | struct => simp [restHas, restListed, hs, throw, throwThe, MonadExceptOf.throw]
   | other => simp [restHas, restListed, hs, throw, throwThe, MonadExceptOf.throw]
 
@@ -471,31 +459,17 @@ theorem listEnum_eq (l : List (String × TSpec)) :
     · simp only [Bool.not_eq_true] at h
       simp [h, ih]
 
-theorem listRest_cons (t : TSpec) (r : List TSpec)
-    (h : ∀ es, t.shape = .iface es → es.contains .universe = false) :
-    listRest (t :: r) = (listRest r).map (fun l => if restListed t then t.name :: l else l) := by
-  obtain ⟨name, shape, al, under, tps, hd⟩ := t
-  cases shape with
-  | iface es =>
-    have := ifaceTest_noUniv es (h es rfl)
-    cases hrc : hasRestClient es <;> cases hl : listRest r <;>
-      simp [listRest, restListed, this, hrc, hl, bind, Except.bind, pure, Except.pure, Except.map]
-  | struct => cases hl : listRest r <;> simp [listRest, restListed, hl, Except.map]
-  | other => cases hl : listRest r <;> simp [listRest, restListed, hl, Except.map]
-
-theorem listRest_eq (l : List (String × TSpec))
-    (h : ∀ ft ∈ l, ∀ es, ft.2.shape = .iface es → es.contains .universe = false) :
-    listRest (l.map (·.2)) = .ok ((l.filter (fun ft => restListed ft.2)).map nameOf) := by
+theorem listRest_eq (l : List (String × TSpec)) :
+    listRest (l.map (·.2)) = (l.filter (fun ft => restListed ft.2)).map nameOf := by
   induction l with
   | nil => rfl
   | cons a r ih =>
-    have ihr := ih (fun ft hft => h ft (by simp [hft]))
-    rw [List.map_cons, listRest_cons _ _ (h a (by simp)), ihr]
-    by_cases hr : restListed a.2 = true
-    · simp [Except.map, hr, nameOf]
-    · simp only [Bool.not_eq_true] at hr
-      simp [Except.map, hr]
-
+    obtain ⟨f, ⟨name, shape, al, under, tps, hd⟩⟩ := a
+    cases shape with
+    | iface es =>
+      cases hrc : hasRestClient es <;> simp [listRest, restListed, ifaceTest_eq, hrc, ih, nameOf]
+    | struct => simp [listRest, restListed, ih]
+    | other => simp [listRest, restListed, ih]
 
 theorem integer_of_listed (k : BKind) (h : k.listed = true) : k.integer = true := by cases k <;> simp_all [BKind.listed, BKind.integer]
 
@@ -522,12 +496,7 @@ theorem listed_produced (cmd : Cmd) (pkg : Pkg) (v : ValidFacts pkg) (file : Str
       cases t.hasDest <;> simp
     · intro ft _; simp [eligible]
   | rest =>
-    refine ⟨((((declared pkg).filter (inFileB file)).filter (fun ft => restListed ft.2)).map nameOf), ?_, ?_⟩
-    · simp only [listTypes, testedSpecs_eq file pkg v.noLoc]
-      apply listRest_eq
-      intro ft hft es hs
-      obtain ⟨f, t⟩ := ft
-      exact noUniv_of_mem v (List.mem_filter.mp hft).1 hs
+    refine ⟨_, by simp only [listTypes, testedSpecs_eq file pkg v.noLoc, listRest_eq]; rfl, ?_⟩
     · apply produced_of .rest pkg v file restListed (fun _ => true)
       · intro ft hft hl
         obtain ⟨f, t⟩ := ft
@@ -655,10 +624,10 @@ theorem mode_named {fl : Flags} {ns : List String} {file : Option String} (h : m
 
 /-! ### running the model -/
 
-theorem finish_eq (m : List (OutName × List String)) (w : Bool) :
-    finish m w = .done m (m.map (·.1)) (w || m.isEmpty) := by simp [finish, mainLoop_eq]
+theorem finish_eq (cmd : Cmd) (m : List (OutName × List String)) (w : Bool) :
+    finish cmd m w = .done m (sortNames cmd (m.map (·.1))) (w || m.isEmpty) := by simp [finish, mainLoop_eq]
 
-theorem meets_finish (m : List (OutName × List String)) (w : Bool) : meets (finish m w) (.files m) = true := by
+theorem meets_finish (cmd : Cmd) (m : List (OutName × List String)) (w : Bool) : meets (finish cmd m w) (.files m) = true := by
   simp [finish_eq, meets]
 
 theorem endsGo_ne {f : String} (h : endsGo f = true) : f ≠ "" := by
@@ -682,7 +651,7 @@ theorem flagCheck_nofile {pkg : Pkg} {fl : Flags} (hf : fl.file = "") (ht : fl.t
 
 theorem run_unspecified (cmd : Cmd) (pkg : Pkg) (fl : Flags) (v : ValidFacts pkg)
     (hsp : specifiedOf fl = false) (hfc : flagCheck pkg fl = none) :
-    run cmd pkg fl = finish (srcMapOf fl.sep fl.file (aioOf pkg fl) []
+    run cmd pkg fl = finish cmd (srcMapOf fl.sep fl.file (aioOf pkg fl) []
         (((declared pkg).filter (fun ft => inFileB fl.file ft && eligible cmd pkg ft.2)).map nameOf))
       (cmd == .enum && enumAliasWarn (testedSpecs fl.file pkg)) := by
   obtain ⟨L, hL, hK⟩ := listed_produced cmd pkg v fl.file
@@ -761,15 +730,15 @@ theorem file_mode_meets (cmd : Cmd) (pkg : Pkg) (fl : Flags) (v : ValidFacts pkg
       have : (ft.2.name == "") = false := by simpa using v.nonEmpty ft hft
       simp [fileName_file f "" [] hfne, this]
     rw [this]
-    exact meets_finish _ _
+    exact meets_finish _ _ _
   | false =>
     by_cases he : (((declared pkg).filter (fun ft => inFileB f ft && eligible cmd pkg ft.2)).map nameOf).isEmpty = true
     · refine ⟨_, by simp only [he, ↓reduceIte, Bool.false_eq_true]; rfl, ?_⟩
       simp only [srcMapOf, he, ↓reduceIte, Bool.false_eq_true]
-      exact meets_finish _ _
+      exact meets_finish _ _ _
     · refine ⟨_, by simp only [he, ↓reduceIte, Bool.false_eq_true]; rfl, ?_⟩
       simp only [srcMapOf, he, ↓reduceIte, Bool.false_eq_true, fileName_file f "" [] hfne, beq_self_eq_true]
-      exact meets_finish _ _
+      exact meets_finish _ _ _
 
 
 /-- `-type=*` (with or without `-sep`) -/
@@ -794,11 +763,11 @@ theorem star_mode_meets (cmd : Cmd) (pkg : Pkg) (fl : Flags) (v : ValidFacts pkg
       rw [srcMapOf_sep v _ _ _ _ (eligible_nodup v _) (eligible_mem _)]
       simp only [List.isEmpty_iff] at he
       simp only [he, List.map_nil]
-      exact meets_finish _ _
+      exact meets_finish _ _ _
     | false =>
       refine ⟨_, by simp only [he, ↓reduceIte, Bool.false_eq_true]; rfl, ?_⟩
       simp only [srcMapOf, he, ↓reduceIte, Bool.false_eq_true]
-      exact meets_finish _ _
+      exact meets_finish _ _ _
   · have hg0 : g0 ≠ "" := by
       cases hfd : pkg.find? (fun f => f.comments.any (isDirective fl.cmdline)) with
       | none => simp [hfd] at hg
@@ -821,15 +790,15 @@ theorem star_mode_meets (cmd : Cmd) (pkg : Pkg) (fl : Flags) (v : ValidFacts pkg
         have : (ft.2.name == "") = false := by simpa using v.nonEmpty ft hft
         simp [fileName_aio g0 [] hg0, this, perType, hfo]
       rw [this]
-      exact meets_finish _ _
+      exact meets_finish _ _ _
     | false =>
       by_cases he : (((declared pkg).filter (fun ft => inFileB "" ft && eligible cmd pkg ft.2)).map nameOf).isEmpty = true
       · refine ⟨_, by simp only [he, ↓reduceIte, Bool.false_eq_true]; rfl, ?_⟩
         simp only [srcMapOf, he, ↓reduceIte, Bool.false_eq_true]
-        exact meets_finish _ _
+        exact meets_finish _ _ _
       · refine ⟨_, by simp only [he, ↓reduceIte, Bool.false_eq_true, hg]; rfl, ?_⟩
         simp only [srcMapOf, he, ↓reduceIte, Bool.false_eq_true, fileName_aio g0 [] hg0, beq_self_eq_true]
-        exact meets_finish _ _
+        exact meets_finish _ _ _
 
 
 /-! ### named types -/
@@ -842,7 +811,7 @@ theorem run_specified (cmd : Cmd) (pkg : Pkg) (fl : Flags)
       | .ok m =>
         match keep cmd pkg true fl.types with
         | .error e => .stop e
-        | .ok produced => finish (srcMapOf true fl.file (aioOf pkg fl) m produced) (skipWarn cmd true fl.types produced) := by
+        | .ok produced => finish cmd (srcMapOf true fl.file (aioOf pkg fl) m produced) (skipWarn cmd true fl.types produced) := by
   simp only [run, hfc, confirmTypes, hsp, ↓reduceIte, Bool.true_or, Bool.false_or]
   cases confirm pkg fl.file fl.types with
   | error e => rfl
@@ -946,7 +915,7 @@ theorem named_good_meets (cmd : Cmd) (pkg : Pkg) (fl : Flags) (v : ValidFacts pk
       intro a ha
       simp [fileName, lookup_map_self (fun n => (fileOf pkg n).getD "") fl.types a ha, hne a ha, perType]
     rw [this]
-    exact meets_finish _ _
+    exact meets_finish _ _ _
   · have hfe : (fl.file == "") = false := by simpa using hf
     have hfs : file = some fl.file := by simp [hfl, hfe]
     have hin := hfile _ hfs
@@ -961,7 +930,7 @@ theorem named_good_meets (cmd : Cmd) (pkg : Pkg) (fl : Flags) (v : ValidFacts pk
       intro a ha
       simp [fileName_file fl.file "" [] hf, hne a ha, perType, hall a ha]
     rw [this]
-    exact meets_finish _ _
+    exact meets_finish _ _ _
 
 
 /-! ### a bad name in the list -/
@@ -1153,7 +1122,7 @@ theorem named_bad_meets (cmd : Cmd) (pkg : Pkg) (fl : Flags) (v : ValidFacts pkg
     have hfatal : keep cmd pkg true fl.types = .error .fatal → meets
         (match keep cmd pkg true fl.types with
           | .error e => Outcome.stop e
-          | .ok produced => finish (srcMapOf true fl.file (aioOf pkg fl) m produced) (skipWarn cmd true fl.types produced))
+          | .ok produced => finish cmd (srcMapOf true fl.file (aioOf pkg fl) m produced) (skipWarn cmd true fl.types produced))
         (.rejected (fl.types.filter (fun n => !good cmd pkg file n))) = true := by
       intro hk; rw [hk]; exact meets_stop_fatal _
     cases cmd with
